@@ -1,10 +1,18 @@
-(** C03: an actor terminates once (Layer R) -- PARTIAL.
-    Proved: one termination makes the cell a Zombie and takes the notifier (so a later termination cannot notify
-    again), the Close record and the notifier invocation are pushed together, stop/fail is first-writer-wins.
-    Not yet proved: the trace-level statement for all programs (validated by ./check C03); known findings F5/F7. *)
-From Coq Require Import ZArith NArith List.
+(** C03: an actor terminates once (Layer R) -- PARTIAL (lifecycle conjunct proved for all programs).
+    The C03 monitor is the exact product of two monitors (R/LinC03Mon.v, [C03_decomposition]): L (lifecycle) and
+    K (cause).  Proved for every program, deferrer kind and fuel ([C03_lifecycle]): if the trace reports no leaked
+    closure / actor value / notifier (decidable on the trace; false only inside F5 / F7 and the two situations listed
+    with C05: self-reference cycle, inline-deferrer leftover) then L accepts it: every actor moves Prep -> Ready ->
+    Zombie or Prep -> Zombie and never leaves Zombie, is_zombie() is true from the notification on, the notifier is
+    invoked exactly once, the actor's own value is dropped exactly once, only after Ready and not after a notification
+    with a cause, and neither a notifier nor a value is owed at the end.
+    Also kept: the one-step facts [C03_once_partial].
+    Not yet proved: K (the cause notified is the first stop/fail of the body / a requested kill / Dropped; the value
+    is not dropped while a method of the actor runs): validated by ./check C03; known findings F5/F7. *)
+From Coq Require Import ZArith NArith List Bool.
 Import ListNotations.
 From Stk Require Import Lib.U R.Syntax R.Rt R.Mon R.Eff R.Count R.OneStep.
+From Stk Require Import R.LinC05Core R.C05Proofs R.LinC03Mon R.C03Proofs.
 
 Theorem C03_once_partial :
   (forall a c s pre s' x,
@@ -23,3 +31,29 @@ Proof.
   - exact die_first_wins.
 Qed.
 Print Assumptions C03_once_partial.
+
+(* C03_ok is implied by the lifecycle monitor and the cause monitor together *)
+Theorem C03_decomposition : forall t : list ev, okL t = true -> okK t = true -> C03_ok t = true.
+Proof. exact C03_split. Qed.
+Check C03_decomposition.
+Print Assumptions C03_decomposition.
+
+(* the lifecycle conjunct, for every program, deferrer kind and fuel *)
+Theorem C03_lifecycle : forall (d : dkind) (p : list top) (fuel : nat) (t : list ev),
+  exec d fuel p = Done t -> no_container_leak t -> okL t = true.
+Proof. exact C03_lifecycle_proved. Qed.
+Check C03_lifecycle.
+Print Assumptions C03_lifecycle.
+
+(* boolean form of the hypothesis, as evaluated by the check on the real traces *)
+Theorem C03_lifecycle_checked : forall (d : dkind) (p : list top) (fuel : nat) (t : list ev),
+  exec d fuel p = Done t -> ncl_b t = true -> okL t = true.
+Proof. intros d p fuel t H B. exact (C03_lifecycle_proved d p fuel t H (ncl_of_b t B)). Qed.
+Print Assumptions C03_lifecycle_checked.
+
+(* satisfiable, non-trivially: stop + fail in one body, kill of a Prep actor holding a call, owner drop, is_zombie *)
+Example C03_example :
+  exists t, exec DGlobal 3000 c03_prog = Done t /\ ncl_b t = true /\ okL t = true /\ C03_ok t = true /\
+            In (ENotify 1 (Some CStop)) t /\ In (ENotify 2 (Some (CKill 9))) t /\ In (ENotify 3 (Some CDrop)) t /\
+            In (EValDrop 1) t /\ In (EValDrop 3) t /\ In (EIsZombie 1 true) t.
+Proof. exact C03_lifecycle_nontrivial. Qed.
